@@ -4,8 +4,8 @@ package enum
 
 import (
 	"fmt"
-	"time"
 	"sort"
+	"time"
 )
 
 // Slices calls f with every slice of length 0..maxLen over alpha (f must not retain s).
@@ -87,17 +87,28 @@ func TryTimeout(limit time.Duration, f func()) (panicked bool, msg string, timed
 		p bool
 		m string
 	}
-	ch := make(chan res, 1)
-	go func() {
-		p, m := Try(f)
-		ch <- res{p, m}
-	}()
-	select {
-	case r := <-ch:
-		return r.p, r.m, false
-	case <-time.After(limit):
-		return false, "", true
+	try := func(d time.Duration) (res, bool) {
+		ch := make(chan res, 1)
+		go func() {
+			p, m := Try(f)
+			ch <- res{p, m}
+		}()
+		select {
+		case r := <-ch:
+			return r, true
+		case <-time.After(d):
+			return res{}, false
+		}
 	}
+	// a wall-clock limit on a call that takes microseconds: a time-out is believed only when a second
+	// attempt with ten times the limit times out as well (a loaded machine must not turn into a finding)
+	if r, ok := try(limit); ok {
+		return r.p, r.m, false
+	}
+	if r, ok := try(10 * limit); ok {
+		return r.p, r.m, false
+	}
+	return false, "", true
 }
 
 // Choices is the choice-only explorer: Run calls body once per complete choice
